@@ -40,12 +40,14 @@ func (h *Session) Unmarshal(v base.HeaderValue) error {
 
 	v0 = strings.TrimLeft(v0, " ")
 
-	kvs, err := keyValParse(v0, ';')
+	keys, kvs, err := keyValParseOrdered(v0, ';')
 	if err != nil {
 		return err
 	}
 
-	for k, v := range kvs {
+	for _, k := range keys {
+		v := kvs[k]
+
 		if k == "timeout" {
 			var iv uint64
 			iv, err = strconv.ParseUint(v, 10, 32)
